@@ -574,11 +574,10 @@ double Integrate_MC_Brute_Force(std::function<double(std::vector<double>&, const
 }
 
 void Miser(std::function<double(std::vector<double>&, const double)> func, std::vector<double>& region, const int npts,
-		   const double dith, double& ave, double& var, std::mt19937& PRNG)
+		   const double dith, double& ave, double& var, std::mt19937& PRNG, int& iran)
 {
 	const int MNPT = 15, MNBS = 60;
 	const double PFAC = 0.1, TINY = 1.0e-30, BIG = 1.0e30;
-	static int iran = 0;
 	int j, jb, n, ndim, npre, nptl, nptr;
 	double avel, varl, fracl, fval, rgl, rgm, rgr, s, sigl, siglb, sigr, sigrb;
 	double sum, sumb, summ, summ2;
@@ -663,10 +662,10 @@ void Miser(std::function<double(std::vector<double>&, const double)> func, std::
 			region_temp[ndim + j] = region[ndim + j];
 		}
 		region_temp[ndim + jb] = rmid[jb];
-		Miser(func, region_temp, nptl, dith, avel, var, PRNG);
+		Miser(func, region_temp, nptl, dith, avel, var, PRNG, iran);
 		region_temp[jb]		   = rmid[jb];
 		region_temp[ndim + jb] = region[ndim + jb];
-		Miser(func, region_temp, nptr, dith, ave, var, PRNG);
+		Miser(func, region_temp, nptr, dith, ave, var, PRNG, iran);
 		ave = fracl * avel + (1 - fracl) * ave;
 		var = fracl * fracl * varl + (1 - fracl) * (1 - fracl) * var;
 	}
@@ -684,7 +683,8 @@ double Integrate_MC_Miser(std::function<double(std::vector<double>&, const doubl
 
 	double dith = 0.0;
 	double average, var;
-	Miser(func, region, ncall, dith, average, var, PRNG);
+	int iran = 0;	// State of the dither and fallback-dimension sequence, local to this integration.
+	Miser(func, region, ncall, dith, average, var, PRNG, iran);
 	// double sd		= std::sqrt(var) * volume;
 	return MC_Volume(region) * average;
 }
